@@ -1169,6 +1169,38 @@ func checkC14(c *Check, p *Program) {
 			c.Fail("C14.Q4", ln+" resend goroutine", p.Pos(a.lostH.Pos()), "not found")
 		}
 	}
+	// the count the handler is given is the one the router announced: octets 2..3 of the indication (behind the
+	// length octet and the status octet), decoded into RoutingLost.Count
+	if un := p.Method("knx/knxnet", "RoutingLost", "Unpack"); un != nil {
+		cntF := p.Field("knx/knxnet", "RoutingLost", "Count")
+		var us *ssa.Call
+		instrsOf(un, func(in ssa.Instruction) {
+			if call, ok := in.(*ssa.Call); ok && callIs(call, modPath+"/knx/util", "", "UnpackSome") && call.Common().Args[0] == ssa.Value(inputParam(un)) {
+				us = call
+			}
+		})
+		okL := false
+		if us != nil {
+			if items, opaque := ifaceArgs(us, true); !opaque && len(items) >= 3 {
+				w := int64(0)
+				for i := 0; i < 2; i++ {
+					if mi, isMI := items[i].(*ssa.MakeInterface); isMI {
+						if pt, isP := mi.X.Type().(*types.Pointer); isP {
+							w += primWidth(pt.Elem())
+						}
+					}
+				}
+				if mi, isMI := items[2].(*ssa.MakeInterface); isMI && w == 2 {
+					if pt, isP := mi.X.Type().(*types.Pointer); isP && primWidth(pt.Elem()) == 2 && fieldOfAddr(stripPtrConv(mi.X)) == cntF {
+						okL = true
+					}
+				}
+			}
+		}
+		c.Decide(okL, "C14.Q4", FuncName(un)+" Count is the two octets behind length and status", p.Pos(un.Pos()), "third item, 16 bits, at offset 2, decoded into Count", "the number of lost messages is not decoded from octets 2..3 of the indication: the client resends another number of messages than the router lost")
+	} else {
+		c.Fail("C14.Q4", "knxnet.RoutingLost.Unpack", "", "not found")
+	}
 	// the lost handler is called once with msg.Count
 	if a.lostBlock != nil {
 		n := 0
